@@ -54,6 +54,12 @@ static bool has_nan(const rnode* t) {
     if (has_nan(t->kids[i])) return true;
   return false;
 }
+static bool has_float(const rnode* t) {
+  if (t->kind == RK_FLOAT) return true;
+  for (size_t i = 0; i < t->nkids; i++)
+    if (has_float(t->kids[i])) return true;
+  return false;
+}
 static bool has_unassigned_simple(const rnode* t) {
   if (t->kind == RK_SIMPLE && !(t->val >= 20 && t->val <= 23)) return true;
   for (size_t i = 0; i < t->nkids; i++)
@@ -171,6 +177,17 @@ static void judge_tree(cbor_item_t* t, bool distinct) {
         vf_fail(NULL, "cbor_serialize wrote before the start of the buffer");
         break;
       }
+  }
+  /* buffers far larger than the item: n = 65536 .. 65536+size+8 puts every float of the tree in front of every remaining length 2^16 + r, r < 9
+   * (a remaining length that is masked or narrowed to 16 bits would read as "no room") */
+  if (sz <= 64 && has_float(w)) {
+    static uint8_t bigb[(1 << 16) + 256];
+    for (size_t n = 65536; n <= 65536 + sz + 8; n++) {
+      memset(bigb, 0xA5, sz + 16);
+      size_t wr = cbor_serialize(t, bigb, n);
+      vf_cnt(K_BUFSIZES, 1);
+      if (wr != sz || memcmp(bigb, refb, sz)) { vf_fail(NULL, "cbor_serialize with n = %zu (size %zu) returned %zu / wrote other bytes than with n = size", n, sz, wr); break; }
+    }
   }
   {
     unsigned char* ab = (unsigned char*)0x1;
